@@ -452,15 +452,8 @@ func (rt *runtime) convertCallParameter(v Value, t reflect.Type) (reflect.Value,
 				switch o.class {
 				case classArrayName:
 					for i := range l {
-						p, ok := o.property[strconv.FormatInt(i, 10)]
-						if !ok {
-							continue
-						}
-
-						e, ok := p.value.(Value)
-						if !ok {
-							continue
-						}
+						// a hole reads as undefined (8.12.3) and converts - or fails - like it
+						e := o.get(strconv.FormatInt(i, 10))
 
 						ev, err := rt.convertCallParameter(e, tt)
 						if err != nil {
